@@ -15,6 +15,8 @@ package main
 //   * `nullableTable`: see nullableRows (the nullable copy reads the VALUE of the extension x-nullable);
 //   * `ref2To3` and `bodyParamNameRows`: the string literals of the package-level variables `ref2To3` (prefix map of
 //     ToV3Ref / FromV3Ref) and `attemptedBodyParameterNames`;
+//   * `requestBodiesUpdates`: how fromV3RequestBodies updates its results formParameters / bodyOrRefParameters inside the
+//     media-type loop (replace by a call / append one / append many), see resultUpdates;
 //   * `<fn>Assigned` lists (ToV3SchemaRef, FromV3SchemaRef, ToV3Operation, FromV3Operation): the JSON keys of the fields of the destination
 //     variable that statements of the function assign outside the literal (`v.F = …`, `v.F, _ = …`,
 //     `v.F[k] = …`), in source order without repetition — the typed fields (discriminator, items, …).
@@ -450,6 +452,67 @@ func (c *ctx17) nullableRows() []row17 {
 	return rows
 }
 
+// resultUpdates: how the slice-typed named results of fn (fromV3RequestBodies: formParameters, bodyOrRefParameters) are
+// updated, in source order — one row per assignment `<result> = <rhs>`:
+//   (<result>, "replace:<callee>")  for `<result> = <callee>(…)` (a call other than append): the earlier value is dropped;
+//   (<result>, "append")            for `<result> = append(<result>, x)`;
+//   (<result>, "append...")         for `<result> = append(<result>, xs...)`;
+// any other right-hand side is unreadable.
+func (c *ctx17) resultUpdates(fnName string, results []string) []row17 {
+	fn := c.convFn[fnName]
+	if fn == nil {
+		c.unrec = append(c.unrec, "function "+fnName+" not found")
+		return nil
+	}
+	isRes := map[string]bool{}
+	for _, r := range results {
+		isRes[r] = true
+	}
+	var rows []row17
+	ast.Inspect(fn.Body, func(n ast.Node) bool {
+		as, ok := n.(*ast.AssignStmt)
+		if !ok {
+			return true
+		}
+		for i, l := range as.Lhs {
+			id, ok := l.(*ast.Ident)
+			if !ok || !isRes[id.Name] {
+				continue
+			}
+			pos := c.fset.Position(as.Pos())
+			where := fmt.Sprintf("%s:%d: update of %s", filepath.Base(pos.Filename), pos.Line, id.Name)
+			if len(as.Lhs) != len(as.Rhs) || as.Tok != token.ASSIGN {
+				c.unrec = append(c.unrec, where)
+				continue
+			}
+			call, ok := as.Rhs[i].(*ast.CallExpr)
+			if !ok {
+				c.unrec = append(c.unrec, where)
+				continue
+			}
+			callee := exprText(call.Fun)
+			if callee != "append" {
+				rows = append(rows, row17{id.Name, "replace:" + callee})
+				continue
+			}
+			if len(call.Args) != 2 || exprText(call.Args[0]) != id.Name {
+				c.unrec = append(c.unrec, where)
+				continue
+			}
+			if call.Ellipsis.IsValid() {
+				rows = append(rows, row17{id.Name, "append..."})
+			} else {
+				rows = append(rows, row17{id.Name, "append"})
+			}
+		}
+		return true
+	})
+	if len(rows) == 0 {
+		c.unrec = append(c.unrec, fnName+": no update of "+strings.Join(results, ", "))
+	}
+	return rows
+}
+
 // stringVar reads a package-level `var name = map[string]string{…}` (rows key → value, source order) or
 // `var name = []string{…}` (rows element → "") whose keys / elements are string literals.
 func (c *ctx17) stringVar(f *ast.File, name string) []row17 {
@@ -535,6 +598,7 @@ func extractCopyTables(repo string) (string, error) {
 		{"nullableTable", c.nullableRows()},
 		{"ref2To3", c.stringVar(f, "ref2To3")},
 		{"bodyParamNameRows", c.stringVar(f, "attemptedBodyParameterNames")},
+		{"requestBodiesUpdates", c.resultUpdates("fromV3RequestBodies", []string{"formParameters", "bodyOrRefParameters"})},
 	}
 	var b strings.Builder
 	b.WriteString("-- generated by go/cmd/extract (table CopyTables) from openapi2conv/openapi2_conv.go — do not edit\n")
